@@ -4,14 +4,15 @@ import LentilVerif.Lemmas.ZernikeAlg
 import LentilVerif.Lemmas.ZernikeRow
 import LentilVerif.Lemmas.ZernikeAngular
 import LentilVerif.Lemmas.ZernikeOrtho
+import LentilVerif.Lemmas.ZernikeDisk
 /-! # C11 — Zernike modes are the Noll-ordered orthonormal polynomials
 
 Property theorems only. Model: `Model/Zernike.lean` (hand-written, tied to `lentil/zernike.py` by the correspondence harness
 tools/harness/c11.py for every j ≤ 861, every valid (n, m) with n ≤ 40, mode values on dyadic nodes and random masks).
 
-Not proved (named in the harness `UNPROVEN`): `|Z_j| ≤ 1` without normalisation; orthonormality (`zernike_orthonormal`) stops at
-n = 20 (the exact radial table) and is stated for the polar-coordinate iterated integral — that this is the area mean over the disk
-(polar change of variables) is not formalised. -/
+Not proved (named in the harness `UNPROVEN`): `|Z_j| ≤ 1` without normalisation. Orthonormality is proved for n ≤ 20 here
+(`zernike_orthonormal`, and as an area mean over the disk `zernike_orthonormal_area`) and for n ≤ 40 in the thorough-tier module
+`Props/C11Thorough.lean`. -/
 namespace Lentil.C11
 open Lentil Finset
 
@@ -199,6 +200,14 @@ theorem radial_gram_integral (n n' m : Nat) (hn : n ≤ 20) (hn' : n' ≤ 20) (h
   · push_cast; ring
   · simp
 
+/-- the radial Gram table up to order `N`, as a hypothesis (proved for N = 20 by `radial_gram`; for N = 40 in the thorough-tier module
+`Props/C11Thorough.lean`) -/
+def GramUpTo (N : Nat) : Prop :=
+  ∀ n n' m : Nat, n ≤ N → n' ≤ N → m ≤ n → m ≤ n' → (n - m) % 2 = 0 → (n' - m) % 2 = 0 →
+    gramQ n n' m = if n = n' then (1 : Rat) / (((2 * (n + 1) : Nat) : Int) : Rat) else 0
+
+theorem gramUpTo_20 : GramUpTo 20 := fun n n' m hn hn' hm hm' h h' => radial_gram n n' m hn hn' hm hm' h h'
+
 /-- **the model's mode is normalisation · radial · azimuthal, with the squared normalisation `normSq`**: over ℝ (real √, cos, sin),
 inside the mask, `zernAt j = N · R_n^{|m|}(ρ) · A_m(θ)` with `N² = normSq n m` (n+1 for m = 0, 2(n+1) otherwise) and
 `A_m = 1, cos(mθ), sin(mθ)` for m = 0, m > 0, m < 0 — this binds `normalisation_constants`/`normalisation_unit_mean_square` to `zernAt` -/
@@ -207,10 +216,8 @@ theorem mode_factorisation (j : Nat) (ρ θ : ℝ) :
     normFac (nollN j) (nollM j) ^ 2 = ((normSq (nollN j) (nollM j) : ℕ) : ℝ) :=
   ⟨zReal_factor j ρ θ, normFac_sq _ _⟩
 
-/-- **orthonormality of the model's modes over the unit disk** (all pairs among the first 231 modes, n ≤ 20): the polar-coordinate
-mean `(1/π) ∫₀^{2π} ∫₀¹ Z_j Z_j' ρ dρ dθ` of the product of two normalised modes of the model is 1 if j = j' and 0 otherwise.
-(What is not formalised: that this iterated polar integral is the area mean over the disk — the polar change of variables.) -/
-theorem zernike_orthonormal (j j' : Nat) (hj : 1 ≤ j) (hj' : 1 ≤ j') (hn : nollN j ≤ 20) (hn' : nollN j' ≤ 20) :
+/-- orthonormality for all modes of radial order ≤ N, given the radial Gram table up to N -/
+theorem zernike_orthonormal_of (N : Nat) (hG : GramUpTo N) (j j' : Nat) (hj : 1 ≤ j) (hj' : 1 ≤ j') (hn : nollN j ≤ N) (hn' : nollN j' ≤ N) :
     diskMean (fun ρ θ => zReal j ρ θ * zReal j' ρ θ) = if j = j' then 1 else 0 := by
   rw [diskMean_modes, azim_integral]
   obtain ⟨v1, v2, _, _, _, _⟩ := noll_valid j hj
@@ -219,7 +226,13 @@ theorem zernike_orthonormal (j j' : Nat) (hj : 1 ≤ j) (hj' : 1 ≤ j') (hn : n
   by_cases hm : nollM j = nollM j'
   · rw [if_pos hm]
     have hab : (nollM j).natAbs = (nollM j').natAbs := by rw [hm]
-    rw [← hab, radial_gram_integral (nollN j) (nollN j') (nollM j).natAbs hn hn' v1 (hab ▸ w1) v2 (hab ▸ w2)]
+    have hI : ∫ x in (0 : ℝ)..1, radialEval (nollN j) (nollM j).natAbs x * radialEval (nollN j') (nollM j).natAbs x * x
+        = if nollN j = nollN j' then 1 / (2 * ((nollN j : ℝ) + 1)) else 0 := by
+      rw [← gramQ_eq_integral _ _ _ v2 (hab ▸ w2), hG _ _ _ hn hn' v1 (hab ▸ w1) v2 (hab ▸ w2)]
+      split_ifs
+      · push_cast; ring
+      · simp
+    rw [← hab, hI]
     by_cases hnn : nollN j = nollN j'
     · have hjj : j = j' := by
         have a := noll_bijective.1 j hj
@@ -236,6 +249,26 @@ theorem zernike_orthonormal (j j' : Nat) (hj : 1 ≤ j) (hj' : 1 ≤ j') (hn : n
       simp [hnn, hjne]
   · have hjne : j ≠ j' := fun e => hm (by rw [e])
     simp [hm, hjne]
+
+/-- **orthonormality of the model's modes over the unit disk** (all pairs among the first 231 modes, n ≤ 20): the polar-coordinate
+mean `(1/π) ∫₀^{2π} ∫₀¹ Z_j Z_j' ρ dρ dθ` of the product of two normalised modes of the model is 1 if j = j' and 0 otherwise.
+(`zernike_orthonormal_area` below turns the iterated polar integral into the area mean over the disk.) -/
+theorem zernike_orthonormal (j j' : Nat) (hj : 1 ≤ j) (hj' : 1 ≤ j') (hn : nollN j ≤ 20) (hn' : nollN j' ≤ 20) :
+    diskMean (fun ρ θ => zReal j ρ θ * zReal j' ρ θ) = if j = j' then 1 else 0 :=
+  zernike_orthonormal_of 20 gramUpTo_20 j j' hj hj' hn hn'
+
+/-- **orthonormality as an area mean over the unit disk**: with each mode read as a function of the point `q` of the plane through its
+polar coordinates `(|q|, arg q)`, `(1/π) ∫_{|q|<1} Z_j(q) Z_j'(q) dq` is 1 if j = j' and 0 otherwise (n ≤ N given the Gram table up to N;
+polar change of variables `integral_comp_polarCoord_symm`, Fubini, 2π-periodicity) -/
+theorem zernike_orthonormal_area_of (N : Nat) (hG : GramUpTo N) (j j' : Nat) (hj : 1 ≤ j) (hj' : 1 ≤ j') (hn : nollN j ≤ N) (hn' : nollN j' ≤ N) :
+    (1 / Real.pi) * ∫ q in unitDisk, zReal j (polarCoord q).1 (polarCoord q).2 * zReal j' (polarCoord q).1 (polarCoord q).2
+      = if j = j' then 1 else 0 := by
+  rw [area_mean_modes, zernike_orthonormal_of N hG j j' hj hj' hn hn']
+
+/-- … for all pairs among the first 231 modes (n ≤ 20) -/
+theorem zernike_orthonormal_area (j j' : Nat) (hj : 1 ≤ j) (hj' : 1 ≤ j') (hn : nollN j ≤ 20) (hn' : nollN j' ≤ 20) :
+    (1 / Real.pi) * ∫ q in unitDisk, zReal j (polarCoord q).1 (polarCoord q).2 * zReal j' (polarCoord q).1 (polarCoord q).2
+      = if j = j' then 1 else 0 := zernike_orthonormal_area_of 20 gramUpTo_20 j j' hj hj' hn hn'
 
 /-! ## coordinates: centroid origin, unit radius at the farthest sample, support only -/
 
